@@ -1158,9 +1158,12 @@ func EvalProgram(progSrc string, files []InputFile, rootSelectors []string, stdo
 	for _, file := range files {
 		// for each json value
 		d := json.NewDecoder(file.Reader)
-		for d.More() {
+		for {
 			var rootValue any
 			err := d.Decode(&rootValue)
+			if err == io.EOF {
+				break
+			}
 			if err != nil {
 				return &ev, JsonError{err.Error(), file.Name}
 			}
